@@ -3,6 +3,7 @@ package main
 // C14 — Execute variants agree; ExecuteWriter is all-or-nothing: R-C14-AON, ERR, FUNNEL, ASSERT.
 
 import (
+	"go/token"
 	"go/types"
 
 	"golang.org/x/tools/go/ssa"
@@ -456,4 +457,84 @@ func globalIsTypeOf(p *Prog, g *ssa.Global, T types.Type) bool {
 		}
 	})
 	return found && stores == 1
+}
+
+// ruleNilPointerFromData: a pointer taken out of caller data by a type assertion / type switch (`case *T:`) can be a
+// typed nil pointer — the dynamic type matches, the pointer is nil. Dereferencing it needs a nil test.
+func ruleNilPointerFromData(p *Prog, a *Anchors, r *Report, rule string) {
+	r.Begin(rule, "a pointer obtained by asserting caller data (a value of unknown dynamic type) to a pointer type is dereferenced only after a nil test: a typed nil pointer in the context matches the type", 0)
+	n := 0
+	p.EachInstr(func(f *ssa.Function, in ssa.Instruction) {
+		ta, ok := in.(*ssa.TypeAssert)
+		if !ok {
+			return
+		}
+		if _, isPtr := ta.AssertedType.Underlying().(*types.Pointer); !isPtr {
+			return
+		}
+		if !p.ConcreteTypes(ta.X).Top {
+			return
+		}
+		// only types a caller can produce a nil pointer of: exported types of this package, types of other packages
+		if n, ok := ta.AssertedType.Underlying().(*types.Pointer).Elem().(*types.Named); ok && n.Obj().Pkg() == p.Pkg.Types && !n.Obj().Exported() {
+			return
+		}
+		var ptr ssa.Value = ta
+		if ta.CommaOk {
+			ptr = nil
+			for _, u := range refs(ta) {
+				if ex, ok := u.(*ssa.Extract); ok && ex.Index == 0 {
+					ptr = ex
+				}
+			}
+		}
+		if ptr == nil {
+			return
+		}
+		n++
+		key := p.FuncName(f) + ":.(" + typeName(ta.AssertedType) + ") deref"
+		var derefs []ssa.Instruction
+		var walk func(v ssa.Value, d int)
+		seen := map[ssa.Value]bool{}
+		walk = func(v ssa.Value, d int) {
+			if d > 4 || seen[v] {
+				return
+			}
+			seen[v] = true
+			for _, u := range refs(v) {
+				switch x := u.(type) {
+				case *ssa.UnOp:
+					if x.Op == token.MUL && x.X == v {
+						derefs = append(derefs, x)
+					}
+				case *ssa.FieldAddr:
+					if x.X == v {
+						derefs = append(derefs, x)
+					}
+				case *ssa.Phi:
+					walk(x, d+1)
+				case *ssa.ChangeType:
+					walk(x, d+1)
+				}
+			}
+		}
+		walk(ptr, 0)
+		bad := false
+		for _, d := range derefs {
+			guarded := Guarded(d, func(c ssa.Value, pol bool) bool {
+				x, eq, isNil := condIsNilTest(c)
+				return isNil && eq != pol && (x == ptr || p.VN(x) == p.VN(ptr))
+			})
+			if !guarded {
+				bad = true
+				r.Bad(key, p.InstrPos(d), "the %s taken out of a value of unknown dynamic type is dereferenced without a nil test: a nil %s in the context (an unset optional field) panics here", typeName(ta.AssertedType), typeName(ta.AssertedType))
+			}
+		}
+		if !bad {
+			r.OK(key, p.InstrPos(in), "asserted pointer is %s", map[bool]string{true: "dereferenced only under a nil test", false: "never dereferenced here (passed on / stored)"}[len(derefs) > 0])
+		}
+	})
+	if n == 0 {
+		r.Trivial("none", "-", "no pointer-typed assertion on caller data")
+	}
 }
